@@ -37,6 +37,10 @@ func Labels(evs []pipeline.VerifEvent) (labels []string, problems []string) {
 		case evStopClose0, evStopClose1, evStopClose2, evStopClose3:
 			labels = append(labels, fmt.Sprintf("StopClose %d", e.Kind-evStopClose0))
 		case evPCRead:
+			if e.Arg < 0 {
+				problems = append(problems, fmt.Sprintf("PendingCount() returned %d", e.Arg))
+				e.Arg = 0
+			}
 			labels = append(labels, fmt.Sprintf("PCRead %d", e.Arg))
 		case evWTake:
 			if h, ok := holding[e.Gid]; ok && h >= 0 {
